@@ -464,5 +464,52 @@ pub fn run(args: &Args, rep: &mut Report) {
             }
         }
     }
+    // ---- random histories: one fault at a random device call of a random operation, reference model up to there
+    let sessions = args.u64("rand-sessions", if thorough { 300_000 } else { 16_000 }) / nshards;
+    let mut cache = crate::modes::sessmode::VolCache::new();
+    for k in 0..sessions {
+        let id = k * nshards + shard;
+        let mut r = Rng::derive(seed, 0xC09A, id);
+        let tiny = r.chance(1, 3);
+        let vc = crate::vol::grid(&mut r, tiny);
+        let Ok((img, vb)) = cache.get(&vc) else { continue };
+        let mut g = crate::gen::GenCfg::default();
+        g.max_ops = 40;
+        g.invalid_names = false;
+        let mut scfg = crate::sess::SessCfg::all(crate::modes::sessmode::unicode_build());
+        scfg.props = ["C01", "C09"].into_iter().collect();
+        scfg.lib_walk = false;
+        let at = r.usize_below(35);
+        let kk = 1 + match r.below(3) {
+            0 => r.below(6),
+            1 => r.below(40),
+            _ => r.below(400),
+        };
+        let kinds = *r.pick(&[0xFu8, 0xF, 1, 2, 4, 8]);
+        scfg.fault = Some((at, kk, kinds));
+        let mut src = crate::gen::RandomSource::new(seed, 0x9a, id, g);
+        let o = crate::sess::run_session(&scfg, &img, vb, 0, &mut src);
+        if o.counters.faults_fired > 0 {
+            rep.evaluations += 1;
+            rep.count("outcome:random-history-fault:fired", 1);
+            rep.count("outcome:random-history-fault:exempt-destructor", o.counters.faults_exempt);
+            let mut f = Fnv::new();
+            f.str(&vc.class()).str(o.history.last().map_or("", |x| x.kind())).u64(kk).u64(u64::from(kinds));
+            rep.distinct.insert(f.get());
+        }
+        if let Some(v) = o.violation {
+            if v.prop == "C09" {
+                let d = format!("[random history on {}] {}", vc.label(), v.detail);
+                let rj = J::obj()
+                    .set("argv", J::arr_of_str(vec!["c09".to_string(), "--seed".into(), seed.to_string()]))
+                    .set("variant", J::s(crate::modes::sessmode::variant_name()))
+                    .set("volume", vc.json())
+                    .set("history", crate::ops::ops_json(&o.history))
+                    .set("fault", J::s(format!("op #{} device call #{} kinds {:#x}", at, kk, kinds)))
+                    .set("detail", J::s(d.clone()));
+                rep.viol("C09", &format!("C09|{}|rand", v.sig.splitn(2, '|').nth(1).unwrap_or("")), &v.rule, &d, rj);
+            }
+        }
+    }
     let _ = rng.next_u64();
 }
